@@ -114,6 +114,9 @@ func loadKnown(path string) (*KnownFindings, error) {
 // Exit code: 0 held, 1 violation, 2 the check itself could not run.
 func (r *Report) Finish(verifDir string, kf *KnownFindings, cmdline string) int {
 	evDir := filepath.Join(verifDir, "evidence")
+	if evidenceDir != "" {
+		evDir = evidenceDir
+	}
 	vDir := filepath.Join(evDir, "violations")
 	os.MkdirAll(vDir, 0o755)
 	// stale replay files of this property
@@ -195,14 +198,18 @@ func (r *Report) Finish(verifDir string, kf *KnownFindings, cmdline string) int 
 	for _, l := range lines {
 		fmt.Println(l)
 	}
+	if unlisted > 0 {
+		// a reported violation is the more specific verdict; instance floors missed because of it are only noted
+		for _, f := range r.Fatal {
+			fmt.Println("note:", f)
+		}
+		return 1
+	}
 	if len(r.Fatal) > 0 {
 		for _, f := range r.Fatal {
 			fmt.Println("CHECK-ERROR:", f)
 		}
 		return 2
-	}
-	if unlisted > 0 {
-		return 1
 	}
 	return 0
 }
